@@ -2,10 +2,10 @@ package checks
 
 import (
 	"context"
-	stdlog "log"
 	"encoding/json"
 	"fmt"
 	"io"
+	stdlog "log"
 	"net"
 	"net/http"
 	"net/http/httptest"
